@@ -3,6 +3,7 @@ package props
 import (
 	"errors"
 	"fmt"
+	"reflect"
 
 	"verif.local/sim/simio"
 	"verif.local/sim/tape"
@@ -253,6 +254,14 @@ func (c07) Run(t *tape.Tape, st *Stats) *Violation {
 	if other != nil {
 		other.Render = render()
 		return other
+	}
+	if res.Panic != nil && src.PanicFired > 0 && reflect.DeepEqual(res.Panic, src.PanicValue) {
+		// the source's own panic came through Load unchanged: the reader
+		// misbehaved, the loader added nothing (containing it, as the parsers'
+		// recover happens to do, is fine too). A *different* panic value is the
+		// loader's own.
+		st.Probe("source_panic_propagated_unchanged_by_Load", true)
+		return nil
 	}
 	if res.Panic != nil {
 		return fail("panic", fmt.Sprintf("Load panicked: %v", res.Panic))
